@@ -590,7 +590,7 @@ theorem refine_callsG (P : Program) (nm : List String → String) (O : Oracle) (
           have c1 : ((0 : Nat) == 0 && ((1 : Nat) != 0)) = true := by decide
           simp only [unrolledOutputs, if_true, collect, evalRT, c1, Nat.add_sub_cancel,
             evalRTFields_map, zip_map_self, J.obj.injEq, HasTyR, liftTy]
-          refine ⟨?_, ⟨trivial, by simp, HasTyRFields_map st _ _ _ _ fun ix _ => by
+          refine ⟨?_, Or.inl ⟨trivial, by simp, HasTyRFields_map st _ _ _ _ fun ix _ => by
             simp only [HasTyR]; exact (hfork ix0 hix0).2.1⟩, trivial⟩
           apply List.map_congr_left
           intro ix hix
